@@ -5,7 +5,8 @@ cd "$(dirname "$(readlink -f "$0")")"
 export CARGO_NET_OFFLINE=true
 cargo kani --version
 cbmc --version
-z3 --version
+cargo +nightly --version
+python3-vt -c "import z3; print('z3', z3.get_version_string())"
 python3 -c "import json,re,subprocess"
 mkdir -p evidence replays
 echo setup ok
